@@ -1,7 +1,7 @@
 //! Circuit-breaker cases: a resource guarded by breakers only (plus an oracle slot that can
 //! reject an entry), on the virtual clock; serves C03.
 //! case: tag base_ms nrules { id strategy retry min_req interval buckets max_rt thr_bits }*
-//! ops : B id other(0/1) | X id err(0/1) | A dt
+//! ops : B id other(0/1) | X id err(0/1) | A dt | Z mode (reload Eq-equal rules; prints nothing)
 //! out : n ids.. then per op:  code [btype] ntr (rule from to)*  then (state retry_rel)* per breaker
 //!       code: 0 admit, 1 block, 2 exited, 20 no entry, 3 tick ; states 0 Closed 1 HalfOpen 2 Open
 use crate::util::*;
@@ -77,27 +77,35 @@ pub fn run_case(t: &mut Toks) -> Vec<i128> {
     clock::set_ms(base);
     let name = format!("b{}", tag);
     let nr = t.usize();
-    let mut rules = Vec::new();
+    let mut specs: Vec<(u64, u64, u32, u64, u32, u32, u64, f64)> = Vec::new();
     for _ in 0..nr {
-        let (id, strat, retry, minr, iv, buckets, maxrt, thr) =
-            (t.u64(), t.u64(), t.u32(), t.u64(), t.u32(), t.u32(), t.u64(), t.f64bits());
-        rules.push(Arc::new(cb::Rule {
-            id: format!("B{}", id),
-            resource: name.clone(),
-            strategy: match strat {
-                0 => cb::BreakerStrategy::SlowRequestRatio,
-                1 => cb::BreakerStrategy::ErrorRatio,
-                _ => cb::BreakerStrategy::ErrorCount,
-            },
-            retry_timeout_ms: retry,
-            min_request_amount: minr,
-            stat_interval_ms: iv,
-            stat_sliding_window_bucket_count: buckets,
-            max_allowed_rt_ms: maxrt,
-            threshold: thr,
-            ..Default::default()
-        }));
+        specs.push((t.u64(), t.u64(), t.u32(), t.u64(), t.u32(), t.u32(), t.u64(), t.f64bits()));
     }
+    let mk = |z: u64, res: &String| -> Vec<Arc<cb::Rule>> {
+        specs
+            .iter()
+            .map(|(id, strat, retry, minr, iv, buckets, maxrt, thr)| {
+                Arc::new(cb::Rule {
+                    id: format!("B{}", id + 100000 * z),
+                    resource: res.clone(),
+                    strategy: match strat {
+                        0 => cb::BreakerStrategy::SlowRequestRatio,
+                        1 => cb::BreakerStrategy::ErrorRatio,
+                        _ => cb::BreakerStrategy::ErrorCount,
+                    },
+                    retry_timeout_ms: *retry,
+                    min_request_amount: *minr,
+                    stat_interval_ms: *iv,
+                    stat_sliding_window_bucket_count: *buckets,
+                    max_allowed_rt_ms: *maxrt,
+                    threshold: *thr,
+                    ..Default::default()
+                })
+            })
+            .collect()
+    };
+    let rules = mk(0, &name);
+    let mut zcount = 0u64;
     let _ = cb::load_rules_of_resource(&name, rules);
     LOG.lock().unwrap().clear();
     let bs = cb::get_breakers_of_resource(&name);
@@ -152,6 +160,28 @@ pub fn run_case(t: &mut Toks) -> Vec<i128> {
                 out.push(3);
                 flush(&mut out, &name, base);
             }
+            "Z" => {
+                let mode = t.u64();
+                zcount += 1;
+                let r = guarded(|| {
+                    let mut rs = mk(zcount, &name);
+                    rs.reverse();
+                    if mode == 0 {
+                        let _ = cb::load_rules_of_resource(&name, rs);
+                    } else {
+                        if mode == 2 && zcount % 2 == 1 {
+                            let other = format!("bz{}", tag);
+                            rs.extend(mk(zcount, &other));
+                        }
+                        cb::load_rules(rs);
+                    }
+                });
+                LOG.lock().unwrap().clear();
+                if r.is_none() {
+                    out.push(-1);
+                    break;
+                }
+            }
             x => panic!("bad op {}", x),
         }
     }
@@ -159,6 +189,8 @@ pub fn run_case(t: &mut Toks) -> Vec<i128> {
         let _ = guarded(|| e.exit());
     }
     let _ = guarded(|| cb::clear_rules_of_resource(&name));
+    let other = format!("bz{}", tag);
+    let _ = guarded(|| cb::clear_rules_of_resource(&other));
     LOG.lock().unwrap().clear();
     out
 }
